@@ -1,6 +1,6 @@
 \* C16 on the model: wrappers 3 and 4 are generator-type objects; every frame's origin, if any, is a
-\* weak-referenceable generator-type object whose first frame is that frame -- except for frames that inherit
-\* the origin of an earlier frame of the same extraction (finding F5, the excuse in OriginContractX)
+\* weak-referenceable generator-type object whose first frame is that frame (strictly, since the repair of finding
+\* F5; with FixedF5 = FALSE the model violates OriginContract and satisfies only the excused OriginContractX)
 SPECIFICATION Spec
 CONSTANTS
   NF = 2
@@ -19,7 +19,9 @@ CONSTANTS
   Fixed = TRUE
   Roots = {3}
   GenT = {3, 4}
+  FixedF5 = TRUE
   NoWeak = {5}
+INVARIANT OriginContract
 INVARIANT OriginContractX
 INVARIANT OutermostIsFirst
 INVARIANT NeverEscapes
